@@ -379,7 +379,9 @@ fn delay_rate(csr_bits: u8, acr_bits: u8) -> Duration {
     const NS_PER_SEC: u32 = 1_000_000_000;
     const BITS_PER_CHAR: u32 = 8;
 
-    let baud_bits: usize = ((csr_bits >> 4) & 0xf) as usize;
+    // Clock select codes 13-15 (timer and external clocks) have no
+    // table entry; treat them as the fastest internal rate.
+    let baud_bits: usize = (((csr_bits >> 4) & 0xf) as usize).min(BAUD_RATES_A.len() - 1);
     let baud_rate = if acr_bits & 0x80 == 0 {
         BAUD_RATES_A[baud_bits]
     } else {
